@@ -20,7 +20,7 @@ func checkC25(r *Run) {
 		req("supported protocol version", "$1.MinProtocolVersion <= $0.ProtocolVersion"),
 		req("extra data present", "len($0.Extra) != 0"),
 		req("extra data holds a full pubkey", "33 <= len($0.Extra)"),
-		req("blockchain pubkey matches this network's", "$1.BlockchainPubkey == local:bcPubKey"),
+		req("blockchain pubkey matches this network's", "$1.BlockchainPubkey == local:cipher.PubKey"),
 		req("verification parameters present", "(33 + 9) <= len($0.Extra)"),
 		req("verification parameters decode exactly", "ok(cipher/encoder.DeserializeRawExact($0.Extra[33:(33 + 9)], $0.UnconfirmedVerifyTxn))"),
 		req("verification parameters valid", "ok(params.VerifyTxn.Validate($0.UnconfirmedVerifyTxn))"),
@@ -40,7 +40,7 @@ func checkC25(r *Run) {
 	if fn := r.fn("C25-R1", "daemon.IntroductionMessage.Verify"); fn != nil {
 		found := false
 		for _, cs := range r.CallSites(fn, "copy") {
-			if r.argTerm(cs, 0) == "local:bcPubKey[:]" && r.argTerm(cs, 1) == "$0.Extra[:33]" {
+			if r.argTerm(cs, 0) == "local:cipher.PubKey[:]" && r.argTerm(cs, 1) == "$0.Extra[:33]" {
 				found = true
 				r.Pass("C25-R1", "Verify: the compared pubkey is copied from Extra[:33]", r.P.Pos(cs.Pos()), "copy(bcPubKey[:], intro.Extra[:33])")
 			}
@@ -236,7 +236,7 @@ func ruleBlockSigChain(r *Run, rule string) {
 		ff := r.P.Facts(fn)
 		ok := false
 		for _, ex := range ff.Exits() {
-			if strings.HasPrefix(ex.Desc, "visor.Visor.executeSignedBlock(^vs, $0, ^b)") {
+			if strings.HasPrefix(ex.Desc, "visor.Visor.executeSignedBlock(^$^0, $0, ^$^1)") {
 				ok = true
 			}
 		}
